@@ -94,3 +94,13 @@ package expressions
 //@ func appendToParam [C20 C19]
 //@   requires tree != nil && tree.statement != nil
 //@   modifies tree.statement.paramTemp, elems(tree.statement.paramTemp)
+
+// Sub-expression progress: after parsing `( ...` the branch cursor is never negative, so the outer
+// cursor (charPos += branch.charPos - 1, then ++) ends up beyond the '(' - the outer loop advances.
+// (The whole-loop variant of parseExpression is not proved; this is the step that used to hang.)
+//@ func (*ParserT).parseExpression [C20 C19]
+//@   scope functional
+//@   check none
+//@   requires tree != nil
+//@   at call (*ParserT).appendAst#22 assert branch.charPos >= 0
+//@   at call (*ParserT).executeExpr#1 assert branch.charPos >= 0
